@@ -17,7 +17,8 @@ RULE = (
     "stream, non-seekable stream, flip stream that switches to same-length malicious content "
     "between analysis and load) x accepted-severity threshold (all six) x arming path "
     "(fickling.load; always_check_safety() + pickle.load with/without threshold; the safety "
-    "context manager) x injected fault (none; the analysis call made by the loader raising "
+    "context manager; the global hook after an inner context has exited; an outer context after "
+    "a nested one has exited; a context after an ML-environment activate/deactivate cycle) x injected fault (none; the analysis call made by the loader raising "
     "ValueError / KeyError / AttributeError / RecursionError / MemoryError). Oracle: verdict v "
     "taken separately, ranks by own table; returned => rank(v) <= rank(T), value and sink log "
     "equal to the stock unpickler's on the same bytes; rank(v) > rank(T) => UnsafeFileError with "
@@ -41,7 +42,8 @@ RANK = {"LIKELY_SAFE": 0, "POSSIBLY_UNSAFE": 1, "SUSPICIOUS": 2, "LIKELY_UNSAFE"
         "LIKELY_OVERTLY_MALICIOUS": 4, "OVERTLY_MALICIOUS": 5}  # fmt: skip
 THRESHOLDS = tuple(RANK)
 STREAMS = ("bytes", "bytesio", "file", "raw_seekable", "non_seekable", "flip")
-PATHS = ("loader", "hook", "hook_threshold", "context")
+PATHS = ("loader", "hook", "hook_threshold", "context", "hook_after_context", "outer_context_after_inner",
+         "context_after_ml_cycle")
 FAULTS = (None, "ValueError", "KeyError", "AttributeError", "RecursionError", "MemoryError")
 
 FLAGGED = (
@@ -273,6 +275,23 @@ def run_case(data, stream_kind, threshold, path, fault, scratch, flip_to=None):
                     fickling.always_check_safety()
                     r = pk.load(src, max_acceptable_severity=T)
                 elif path == "context":
+                    with fickling.check_safety():
+                        r = pk.load(src)
+                elif path == "hook_after_context":
+                    # the global hook stays armed after an inner context has come and gone
+                    fickling.always_check_safety()
+                    with fickling.check_safety():
+                        pass
+                    r = pk.load(src)
+                elif path == "outer_context_after_inner":
+                    with fickling.check_safety():
+                        with fickling.check_safety():
+                            pass
+                        r = pk.load(src)
+                elif path == "context_after_ml_cycle":
+                    # an ML environment was activated and removed earlier in the process
+                    fickling.hook.activate_safe_ml_environment()
+                    fickling.hook.deactivate_safe_ml_environment()
                     with fickling.check_safety():
                         r = pk.load(src)
                 else:
